@@ -56,6 +56,19 @@ def records_of(calc, tag):
         gv = numpy.asarray(vb.modulus_adiabatic[key]) - numpy.asarray(vb.modulus_isothermal[key])
         if key.voigt[0] <= 3 and key.voigt[1] <= 3 and numpy.all(numpy.isfinite(gv)) and float(numpy.max(numpy.abs(gv))) > 0:
             add("field", "gap:c%d%d" % key.voigt, gv, numpy.asarray(pb.modulus_adiabatic[key]) - numpy.asarray(pb.modulus_isothermal[key]))
+    # the two ways of reading a pressure-base tensor (by key, and by iterating over items()) give the same arrays
+    for nm, view in (("s", pb.modulus_adiabatic), ("t", pb.modulus_isothermal)):
+        try:
+            viaitems = {k: numpy.asarray(v) for k, v in view.items()}
+        except Exception:
+            viaitems = None
+        if viaitems is not None:
+            for key in calc.modulus_keys:
+                a, b = numpy.asarray(view[key]), viaitems.get(key)
+                if b is None or b.shape != a.shape or not numpy.array_equal(a, b, equal_nan=True):
+                    out.append({"kind": "items", "name": "c%d%d%s" % (*key.voigt, nm), "tag": tag,
+                                "dev": None if b is None or b.shape != a.shape else float(numpy.nanmax(numpy.abs(a - b)) / (numpy.nanmax(numpy.abs(a)) or 1.0))})
+                    break
     k0 = calc.modulus_keys[0]
     add("field", "attr:c%d%ds" % k0.voigt, getattr(vb, "c%d%ds" % k0.voigt), getattr(pb, "c%d%ds" % k0.voigt))
     for n in NAMES:
@@ -135,7 +148,10 @@ def main(ctx, replay=None):
         shapes = [r for r in recs if r["kind"] == "shape"]
         for r in shapes[:3]:
             ctx.violation(f"{r['name']}: pressure-base array has shape {r['shape'][1]}, volume-base {r['shape'][0]}", r, {"clause": "shape", "name": r["name"]})
-        recs = [r for r in recs if r["kind"] != "shape"]
+        for r in [r for r in recs if r["kind"] == "items"][:3]:
+            ctx.violation(f"{r['name']} ({r['tag']}): the pressure-base tensor read through items() differs from the one read by key "
+                          f"(relative deviation {r['dev']})", r, {"clause": "items_vs_key", "name": r["name"].rstrip("0123456789st") or r["name"]})
+        recs = [r for r in recs if r["kind"] not in ("shape", "items")]
         if len(recs) < 50:
             raise MachineryError("too few isotherm records")
         ok, consumed, tres = validate_trace(ctx, "Trace_V2P", "Trace_V2P.cfg", recs, name="v2p", timeout=900)
@@ -212,7 +228,8 @@ def main(ctx, replay=None):
             if target <= pmin:
                 continue
             ds.settings["DELTA_P"] = (target - pmin) / (ntv - 1)
-            ds.settings["DELTA_P_SAMPLE"] = ds.settings["DELTA_P"]
+            # (QHA's sampling step thins out QHA's own tables only: the decision is about the requested grid)
+            ds.settings["DELTA_P_SAMPLE"] = ds.settings["DELTA_P"] * int(rng.choice([1, 2, 3]))
             done += 1
             quota[cls] -= 1
             case = {"abstract": [rv, p0, dp, cnt], "class": cls, "verdict": verdict, "reach_min": hmin, "reach_max": hmax, "P_MIN": pmin,
